@@ -578,46 +578,51 @@ Section Generic.
   (* ParseHeader.  www / info: the values of WWW-Authenticate / Authentication-Info
      ([] = header absent or empty).  Result: new state, err == nil;
      None = the table does not describe a value. *)
+  Definition header_for (st : cstate) (www info : bytes) : bytes :=
+    match st with
+    | CSignChallenge | CVerifyAndSign => www
+    | _ => info
+    end.
+
+  (* the server's public key is taken from the first header that carries one *)
+  Definition parse_pubkey (c1 : client) (p : params) : client * bool :=
+    match cl_spk c1 with
+    | Some _ => (c1, true)
+    | None =>
+        if (plen (p_pk p) >? 0)%Z then
+          match p_pk p with
+          | Some v =>
+              match pv_dec v with
+              | None => (c1, false)
+              | Some b => match unmarshal_pk b with
+                          | Some k => (set_spk c1 (Some k), true)
+                          | None => (c1, false)
+                          end
+              end
+          | None => (c1, true)
+          end
+        else (c1, true)
+    end.
+
+  Definition parse_body (c : client) (tbl : vtable) (hv : bytes) : option (client * bool) :=
+    match hv with
+    | [] => Some (set_p c p_empty, false)                          (* errMissingChallenge *)
+    | _ =>
+        let '(bp, e) := parse_scheme_params hv bp_empty in
+        match lift_params tbl bp with
+        | None => None
+        | Some p =>
+            match e with
+            | PEok => Some (parse_pubkey (set_p c p) p)
+            | _ => Some (set_p c p, false)                         (* the parameters parsed so far stay *)
+            end
+        end
+    end.
+
   Definition client_parse (c : client) (tbl : vtable) (www info : bytes) : option (client * bool) :=
     match cl_state c with
     | CDone | CInitiate => Some (c, true)
-    | st =>
-        let hv := match st with
-                  | CSignChallenge | CVerifyAndSign => www
-                  | _ => info
-                  end in
-        let c0 := set_p c p_empty in
-        match hv with
-        | [] => Some (c0, false)                                   (* errMissingChallenge *)
-        | _ =>
-            let '(bp, e) := parse_scheme_params hv bp_empty in
-            match lift_params tbl bp with
-            | None => None
-            | Some p =>
-                let c1 := set_p c p in
-                match e with
-                | PEok =>
-                    match cl_spk c1 with
-                    | Some _ => Some (c1, true)
-                    | None =>
-                        if (plen (p_pk p) >? 0)%Z then
-                          match p_pk p with
-                          | Some v =>
-                              match pv_dec v with
-                              | None => Some (c1, false)
-                              | Some b => match unmarshal_pk b with
-                                          | Some k => Some (set_spk c1 (Some k), true)
-                                          | None => Some (c1, false)
-                                          end
-                              end
-                          | None => Some (c1, true)
-                          end
-                        else Some (c1, true)
-                    end
-                | _ => Some (c1, false)
-                end
-            end
-        end
+    | st => parse_body c tbl (header_for st www info)
     end.
 
   (* verifySig of the client *)
